@@ -34,13 +34,14 @@ func withAnchors(c *Ctx, f func(a *serverAnchors)) {
 
 func init() {
 	register("C01",
-		"Decides, on every control-flow path, the mechanism that makes one-fetch-per-unknown-key possible: the lookup's transition relation over four abstract entry states (only the unknown state becomes fetching, exactly the requests that find it fetching are registered as waiters and get the registered channel, a hit returns the stored response), the locked wrapper (lookup under the write lock; a woken waiter re-evaluates under the lock), get-or-create of the entry in one shard critical section, the shard function, and the cache middleware forwarding only non-hit states exactly once. The schedule quantifier itself (that the Go runtime, given these shapes, yields one fetch on every interleaving) is not decided.",
+		"Decides, on every control-flow path, the mechanism that makes one-fetch-per-unknown-key possible: the lookup's transition relation over four abstract entry states (only the unknown state becomes fetching, exactly the requests that find it fetching are registered as waiters and get the registered channel, a hit returns the stored response), the locked wrapper (lookup under the write lock; a woken waiter re-evaluates under the lock), get-or-create of the entry in one shard critical section, the shard function, the cache middleware forwarding only non-hit states exactly once, and the stored expiry being the clock plus a positive lifetime (an entry stored already expired makes every waiter the next fetcher). The schedule quantifier itself (that the Go runtime, given these shapes, yields one fetch on every interleaving) is not decided.",
 		nil, func(c *Ctx) {
 			withAnchors(c, func(a *serverAnchors) {
 				ruleLookup(c, a.cacheA, set("lookup-shape", "state-determined", "no-exit-unknown", "fetching-only-from-unknown", "registration", "returned-status", "hit-data", "invariant-waiters", "no-waiter-dropped"))
 				ruleLockedWrapper(c, a.cacheA)
 				ruleCacheMiddleware(c, a, set("hit-does-not-forward", "hit-serves-stored", "forward-once", "entry-of-request-key", "completion-only-by-fetcher"))
 				ruleProxyMiddleware(c, a, set("forward-once"))
+				ruleCompletionPaths(c, a.cacheA, set("expiry-value", "ttl-positive"))
 				ruleGetOrCreate(c)
 				ruleShardFunction(c)
 				ruleEntryWriters(c, a.cacheA)
@@ -53,6 +54,7 @@ func init() {
 		nil, func(c *Ctx) {
 			withAnchors(c, func(a *serverAnchors) {
 				ruleDrainShape(c, a.cacheA)
+				ruleLocksNotCopied(c)
 				ruleCompletionPaths(c, a.cacheA, set("completes-on-every-path", "locked"))
 				ruleLookup(c, a.cacheA, set("state-determined", "invariant-expiry", "invariant-waiters", "no-waiter-dropped", "no-exit-unknown", "registration"))
 				ruleStoreLoadAtomic(c, a.cacheA)
@@ -63,7 +65,7 @@ func init() {
 			})
 		})
 	register("C03",
-		"Decides the gating structure for all header sets and methods: a non-zero lifetime is returned only after the Set-Cookie presence test, the Cache-Control emptiness test and the case-insensitive no-cache/no-store/private test (over all Cache-Control lines) have failed; the lifetime is the captured s-maxage, else max-age, minus a positive Age; only these three headers are consulted; storing is gated by fetching state, lifetime > 0, a non-nil response and a successful downstream handler; non-GET/HEAD requests bypass the cache and every request is forwarded at most once; the status label is the lookup's status. Numeric semantics of strconv.Atoi and directive tokenisation are not decided.",
+		"Decides the gating structure for all header sets and methods: a non-zero lifetime is returned only after the Set-Cookie presence test, the Cache-Control emptiness test and the case-insensitive no-cache/no-store/private test (over all Cache-Control lines) have failed; the lifetime is the captured s-maxage, else max-age, minus a positive Age; only these three headers are consulted, and the location's configured response headers are only ever added next to the upstream's values in the header the classifier reads (never set over or deleted from it); storing is gated by fetching state, lifetime > 0, a non-nil response and a successful downstream handler; non-GET/HEAD requests bypass the cache and every request is forwarded at most once; the status label is the lookup's status. Numeric semantics of strconv.Atoi and directive tokenisation are not decided.",
 		nil, func(c *Ctx) {
 			withAnchors(c, func(a *serverAnchors) {
 				ruleMaxAge(c, a, nil)
@@ -71,38 +73,42 @@ func init() {
 				ruleContextKeys(c, a)
 				ruleResponder(c, a)
 				ruleProxyHandlerDirect(c)
+				ruleLocationEdits(c)
 				ruleCacheMiddleware(c, a, set("pass-methods", "forward-once", "label", "hit-does-not-forward", "store-gate", "completion-only-by-fetcher"))
 				ruleProxyMiddleware(c, a, set("forward-once", "lifetime-plumbing", "upstream-error-propagates"))
 			})
 		})
 	register("C04",
-		"Decides that the expiry test (expiredAt >= clock read in this call) is applied on every lookup path that serves a hit or hit-for-pass state, after any load from the store and on the expiry value actually current; that an expired entry is reset; that the stored expiry is clock + ttl with 1 <= ttl <= 2^31 (no wrap) and createdAt is that same clock value; that a woken waiter re-runs the lookup (and its expiry test); that nothing on the lookup path extends the expiry; Age is clock - createdAt and is emitted only on hits. Timed histories themselves are not decided.",
+		"Decides that the expiry test (expiredAt >= clock read in this call) is applied on every lookup path that serves a hit or hit-for-pass state, after any load from the store and on the expiry value actually current; that an expired entry is reset; that the stored expiry is clock + ttl with 1 <= ttl <= 2^31 (no wrap) and createdAt is that same clock value; that a woken waiter re-runs the lookup (and its expiry test); that nothing on the lookup path extends the expiry; Age is clock - createdAt and is emitted only on hits; the lifetime recorded for the fetcher is computed from the upstream's own header (Age included), not from the stored copy that drops fields; a hit restored from the store takes createdAt (and a non-zero expiry) from the decoded record. Timed histories themselves are not decided.",
 		nil, func(c *Ctx) {
 			withAnchors(c, func(a *serverAnchors) {
 				ruleLookup(c, a.cacheA, set("state-determined", "expiry-applied", "invariant-expiry", "hit-data", "returned-status"))
 				ruleCompletionPaths(c, a.cacheA, set("expiry-value", "ttl-positive", "no-wrap", "stores-response"))
 				ruleLockedWrapper(c, a.cacheA)
+				ruleStoreLoadAtomic(c, a.cacheA)
 				ruleCacheMiddleware(c, a, set("hit-age", "hit-serves-stored", "store-gate"))
+				ruleProxyMiddleware(c, a, set("lifetime-plumbing"))
 				ruleAge(c, a.cacheA)
 				ruleResponder(c, a)
 				ruleContextKeys(c, a)
 			})
 		})
 	register("C07",
-		"Decides, for all configured periods: a lookup in hit-for-pass state is never queued and never served a response; the marker always gets a period >= 1 (the default when the configured one is <= 0) added to the clock; it lapses through the same expiry test as hits; the configured period is what the fetcher passes; non-fetcher requests never complete (extend) the entry; hit-for-pass requests are forwarded once and reach the upstream with their headers untouched. Timed histories are not decided.",
+		"Decides, for all configured periods: a lookup in hit-for-pass state is never queued and never served a response; the marker always gets a period >= 1 (the default when the configured one is <= 0) added to the clock; it lapses through the same expiry test as hits; the configured period is what the fetcher passes; non-fetcher requests never complete (extend) the entry; hit-for-pass requests are forwarded once and reach the upstream with their headers untouched; the upstream transport puts no cap on connections per host (forwarded requests do not queue behind one another inside net/http). Timed histories are not decided.",
 		nil, func(c *Ctx) {
 			withAnchors(c, func(a *serverAnchors) {
 				ruleLookup(c, a.cacheA, set("state-determined", "registration", "hit-data", "expiry-applied", "invariant-expiry", "returned-status"))
 				ruleCompletionPaths(c, a.cacheA, set("completes-on-every-path", "ttl-positive", "expiry-value"))
 				ruleCacheMiddleware(c, a, set("ticket-discharge", "hit-for-pass-period", "completion-only-by-fetcher", "forward-once"))
 				ruleProxyMiddleware(c, a, set("withheld-on-fetch", "lifetime-plumbing"))
+				ruleTransportUnbounded(c)
 				ruleLockedWrapper(c, a.cacheA)
 				ruleStoreLoadAtomic(c, a.cacheA)
 				ruleConverters(c)
 			})
 		})
 	register("C08",
-		"Decides the safety clauses: a record is read from the store only on the first lookup of an unknown entry; it is adopted all-or-nothing, only as hit/hit-for-pass with a non-zero expiry (hit with a response); pike's own expiry test is applied to the adopted expiry before the state is served; absolute createdAt/expiredAt are what is written and restored. The crash-point quantifier (what the store's files contain after a kill) is not applicable to static analysis.",
+		"Decides the safety clauses: a record is read from the store only on the first lookup of an unknown entry; it is adopted all-or-nothing, only as hit/hit-for-pass with a non-zero expiry (hit with a response); pike's own expiry test is applied to the adopted expiry before the state is served; absolute createdAt/expiredAt are what is written and restored; the body of a restored entry is recovered from a stored variant whenever its raw body is empty (a restored record carries an empty, non-nil raw body); each back end's Get, Set and Delete address one and the same record for a key; adoption does not depend on the decoded response's content (empty bodies are valid). The crash-point quantifier (what the store's files contain after a kill) is not applicable to static analysis.",
 		nil, func(c *Ctx) {
 			withAnchors(c, func(a *serverAnchors) {
 				ruleLookup(c, a.cacheA, set("state-determined", "load-on-first-lookup", "load-only-when-unknown", "expiry-applied", "invariant-expiry", "hit-data"))
@@ -114,17 +120,21 @@ func init() {
 				ruleStoreSiblings(c)
 				ruleStoreWriteOrdered(c)
 				ruleTypedNilStore(c)
+				ruleStoreKeyAgreement(c)
+				ruleRawProvenance(c)
 			})
 		})
 	register("C10",
-		"Decides that store failures cannot reach clients or strand waiters: a failed, truncated or impossible record leaves the live entry untouched (all-or-nothing adoption) and the lookup continues as a miss; every completion path drains the waiters and sets the state whatever the store write returns; the fetcher's ticket is always discharged. Slow calls and flipped body bits are not decided.",
+		"Decides that store failures cannot reach clients or strand waiters: a failed, truncated or impossible record leaves the live entry untouched (all-or-nothing adoption) and the lookup continues as a miss; every completion path drains the waiters and sets the state whatever the store write returns; the fetcher's ticket is always discharged; whatever expiry a restored record carries goes through the same expiry test as any entry (no sign or value of it is exempt); the record decoders contain no panicking-by-contract call, explicit panic or unchecked data-sized allocation and every index / fixed-width read is provably inside the data (a panic under the entry lock would wedge the key); a purge deletes the persisted record while still holding the shard lock. Slow calls and flipped body bits are not decided.",
 		nil, func(c *Ctx) {
 			withAnchors(c, func(a *serverAnchors) {
 				ruleStoreLoadAtomic(c, a.cacheA)
-				ruleLookup(c, a.cacheA, set("state-determined", "invariant-expiry", "invariant-waiters", "no-exit-unknown", "load-only-when-unknown"))
+				ruleLookup(c, a.cacheA, set("state-determined", "expiry-applied", "invariant-expiry", "invariant-waiters", "no-exit-unknown", "load-only-when-unknown"))
 				ruleCompletionPaths(c, a.cacheA, set("completes-on-every-path"))
 				ruleDrainShape(c, a.cacheA)
 				rulePurge(c, a.cacheA)
+				ruleDecodersNoPanic(c, map[string]bool{"cache": true})
+				ruleDecoderBounds(c, map[string]bool{"cache": true})
 				ruleStoreSiblings(c)
 				ruleStoreOpenNonFatal(c)
 				ruleTypedNilStore(c)
@@ -132,7 +142,7 @@ func init() {
 			})
 		})
 	register("C06",
-		"Decides ownership and identity of the key bytes: the key is a buffer allocated per request holding METHOD SP HOST SP REQUEST-URI back to back; nothing it flows into writes, appends to or reslices it (the LRU keeps a zero-copy view); entries are looked up, inserted and removed by the whole key, the hash only picks the shard; every store back end addresses its record by the whole key; on a miss the entry handed out is freshly allocated (never recycled or shared between keys); unsafe conversions are confined to the two zero-copy helpers. Hash collision behaviour is irrelevant given full-key lookup.",
+		"Decides ownership and identity of the key bytes: the key is a buffer allocated per request holding METHOD SP HOST SP REQUEST-URI back to back; nothing it flows into writes, appends to or reslices it (the LRU keeps a zero-copy view); entries are looked up, inserted and removed by the whole key, the hash only picks the shard; every store back end addresses its record by the whole key, and its Get, Set and Delete derive the address in the same way; on a miss the entry handed out is freshly allocated (never recycled or shared between keys); unsafe conversions are confined to the two zero-copy helpers. Hash collision behaviour is irrelevant given full-key lookup.",
 		nil, func(c *Ctx) {
 			withAnchors(c, func(a *serverAnchors) {
 				ruleKey(c)
@@ -141,16 +151,18 @@ func init() {
 				ruleGetOrCreate(c)
 				ruleShardFunction(c)
 				ruleStoreKeys(c)
+				ruleStoreKeyAgreement(c)
 				ruleEntryWriters(c, a.cacheA)
 				ruleEntryContainers(c, a.cacheA)
 				ruleCacheMiddleware(c, a, set("entry-of-request-key", "hit-serves-stored"))
 			})
 		})
 	register("C11",
-		"Decides, for every int size: the limit passed to each shard's lru.New is >= 1 (0 means unlimited in groupcache/lru) and the limits add up to at most the configured size (limit = size / number of shards); shards are constructed only by NewDispatcher and no pike code changes an lru.Cache's limit or eviction hook; cache entries are retained by nothing but the bounded LRU. LRU order inside the dependency is not analysed.",
+		"Decides, for every int size: the limit passed to each shard's lru.New is >= 1 (0 means unlimited in groupcache/lru) and the limits add up to at most the configured size (limit = size / number of shards); shards are constructed only by NewDispatcher and no pike code changes an lru.Cache's limit or eviction hook; cache entries are retained by nothing but the bounded LRU; no shard (or any other value holding a lock) is copied, so the shard lock really serialises access to its LRU. LRU order inside the dependency is not analysed.",
 		[]string{"groupcache/lru: MaxEntries == 0 means no limit; Add evicts the oldest entry beyond MaxEntries"}, func(c *Ctx) {
 			withAnchors(c, func(a *serverAnchors) {
 				ruleCapacity(c)
+				ruleLocksNotCopied(c)
 				ruleEntryContainers(c, a.cacheA)
 				ruleGetOrCreate(c)
 				ruleKey(c)
@@ -159,19 +171,21 @@ func init() {
 			})
 		})
 	register("C18",
-		"Decides that a purge removes the key from the shard the lookup consults (same shard function, whole key) on every path and deletes the persisted record whenever a store is configured; the unnamed form visits every cache and never stops early, the named form touches one; a purge writes no entry state and takes no entry lock, so it can neither block on nor strand an in-flight fetch. The history clause about a purge racing a fetch that later re-persists is not decided.",
+		"Decides that a purge removes the key from the shard the lookup consults (same shard function, whole key) on every path and deletes the persisted record whenever a store is configured; the unnamed form visits every cache and never stops early, the named form touches one; the package-level purge hands (cache name, key) unchanged to the one default registry; each back end deletes the record its Get and Set address; a purge writes no entry state and takes no entry lock, so it can neither block on nor strand an in-flight fetch. The history clause about a purge racing a fetch that later re-persists is not decided.",
 		nil, func(c *Ctx) {
 			withAnchors(c, func(a *serverAnchors) {
 				rulePurge(c, a.cacheA)
 				rulePurgeAll(c)
 				ruleStoreWriteOrdered(c)
 				ruleAdminPurge(c)
+				ruleStoreKeyAgreement(c)
+				ruleForwarders(c, "cache")
 				ruleShardFunction(c)
 				ruleEntryWriters(c, a.cacheA)
 			})
 		})
 	register("C05",
-		"Decides label/bytes agreement and provenance on every path: each encoding label handed to a client is paired with the stored variant of that coding, the raw body, or a transcode of the raw body; the raw body is RawBody, else gunzip(GzipBody), else brotli-decode(BrBody); upstream bodies are filed under exactly the variant their encoding names and every other documented encoding is decoded by its own codec; Fill writes label, body, status and header of one negotiation; the stored header is a deep copy minus only the fields pike recomputes; pre-compression drops the raw body only when both variants exist; the lz4 destination covers the format's maximum expansion. Byte-identity of codec round trips is not decidable statically.",
+		"Decides label/bytes agreement and provenance on every path: each encoding label handed to a client is paired with the stored variant of that coding, the raw body, or a transcode of the raw body; the raw body is RawBody, else gunzip(GzipBody), else brotli-decode(BrBody); upstream bodies are filed under exactly the variant their encoding names and every other documented encoding is decoded by its own codec; Fill writes label, body, status and header of one negotiation; the stored header is a deep copy minus only the fields pike recomputes; pre-compression drops the raw body only when both variants exist; the lz4 destination covers the format's maximum expansion; the five content-coding constants carry the documented wire names. Byte-identity of codec round trips is not decidable statically.",
 		nil, func(c *Ctx) {
 			withAnchors(c, func(a *serverAnchors) {
 				ruleDecisionTable(c)
@@ -181,6 +195,7 @@ func init() {
 				ruleIgnoredHeaders(c)
 				ruleCompressVariants(c)
 				ruleDecoderDispatch(c)
+				ruleEncodingNames(c)
 				ruleDecodersReadAll(c)
 				rulePooledBytes(c)
 				ruleLZ4Bound(c)
@@ -191,7 +206,7 @@ func init() {
 			})
 		})
 	register("C13",
-		"Decides the negotiation logic completely: the function from (accept-br, accept-gzip, has-br, has-gzip, should-compress) to (label, body provenance) is extracted from the code's paths and compared with the documented decision list on all 32 cells, with determinism; should-compress is false iff all variants are <= the minimum length and otherwise the content-type filter (default when unset) decides; cacheable responses are compressed once with the best-compression profile before publication and nowhere else; each response carries the server's compress settings. Substring matching of Accept-Encoding tokens and q-values are outside the statement.",
+		"Decides the negotiation logic completely: the function from (accept-br, accept-gzip, has-br, has-gzip, should-compress) to (label, body provenance) is extracted from the code's paths and compared with the documented decision list on all 32 cells, with determinism; should-compress is false iff all variants are <= the minimum length and otherwise the content-type filter (default when unset) decides; cacheable responses are compressed once with the best-compression profile before publication and nowhere else; each response carries the server's compress settings, and a live update computes those settings from the option exactly as the constructor does (a removed filter falls back to the default). Substring matching of Accept-Encoding tokens and q-values are outside the statement.",
 		nil, func(c *Ctx) {
 			withAnchors(c, func(a *serverAnchors) {
 				ruleDecisionTable(c)
@@ -203,10 +218,11 @@ func init() {
 				rulePublishedResponse(c, a)
 				ruleRawProvenance(c)
 				ruleProxyMiddleware(c, a, set("server-settings"))
+				ruleCtorUpdateAgree(c)
 			})
 		})
 	register("C12",
-		"Decides stream finalisation order (the compressing writer is closed on every successful path and the buffer is not read before that), level clamping for every int (the value reaching gzip.NewWriterLevel is in [-2,9], brotli's in [0,11]), propagation of every codec library error, the lz4 destination bound (a short-buffer failure is final only at 255 x input) and the decoder dispatch. That the codecs are exact inverses for every byte string and never panic on malformed input is numeric behaviour of third-party libraries: not applicable to static analysis.",
+		"Decides stream finalisation order (the compressing writer is closed on every successful path and the buffer is not read before that), level clamping for every int (the value reaching gzip.NewWriterLevel is in [-2,9], brotli's in [0,11]), propagation of every codec library error, the lz4 destination bound (a short-buffer failure is final only at 255 x input) that the lz4 retry loop has a feasible exit while the short-buffer error persists (no hang on malformed blocks), the decoder dispatch, that pike's own decoder code has no Must* call, explicit panic, allocation sized by an unchecked number taken from the stream or index that is not provably inside the data, that the five decoders are reached under the documented wire names, and that the zstd decoder is built without options that reject valid frames. That the codec libraries are exact inverses for every byte string and themselves never panic on malformed input is behaviour of third-party code: not applicable to static analysis.",
 		nil, func(c *Ctx) {
 			ruleEncoders(c)
 			ruleLevelApplied(c)
@@ -215,15 +231,25 @@ func init() {
 			ruleLZ4Bound(c)
 			ruleDecoderErrors(c)
 			ruleDecoderDispatch(c)
+			ruleForwarders(c, "compress")
+			ruleEncodingNames(c)
+			ruleDecoderOptions(c)
+			ruleDecodersNoPanic(c, map[string]bool{"compress": true})
+			ruleDecoderBounds(c, map[string]bool{"compress": true})
 		})
 	register("C09",
-		"Decides writer/reader layout agreement for both record types (element kinds, widths, order and the field each element belongs to, every variable-length element preceded by its own length), that every read is bounded (fixed-width reads fail on short input, variable reads are checked against 0 and the remaining length), that no allocation in a decoder is sized by record data, that a record cut anywhere fails to decode (the tail is a checked read), that encoded records are freshly allocated, and that integer writers and readers agree on width and byte order. Exact value round-trip of contents (e.g. JSON re-encoding of non-UTF-8 header values) is value semantics of libraries and not decided.",
+		"Decides writer/reader layout agreement for both record types (element kinds, widths, order and the field each element belongs to, every variable-length element preceded by its own length), that every read is bounded (fixed-width reads fail on short input, variable reads are checked against 0 and the remaining length), that no allocation in a decoder is sized by record data and no decoder calls a panicking-by-contract function (Must*) on record data, that every index and fixed-width byte-order read in a decoder is inside the data by the comparisons made before it, that the loader accepts every record the completions write (adoption depends only on status, expiry and the presence of a response, not on its content), that a record cut anywhere fails to decode (the tail is a checked read), that encoded records are freshly allocated, and that integer writers and readers agree on width and byte order. Exact value round-trip of contents (e.g. JSON re-encoding of non-UTF-8 header values) is value semantics of libraries and not decided.",
 		nil, func(c *Ctx) {
 			ruleLayout(c)
 			ruleBoundedReads(c)
 			ruleTruncation(c)
 			ruleEncodedFresh(c)
 			ruleWriterWidths(c)
+			ruleDecodersNoPanic(c, map[string]bool{"cache": true})
+			ruleDecoderBounds(c, map[string]bool{"cache": true})
+			withAnchors(c, func(a *serverAnchors) {
+				ruleStoreLoadAtomic(c, a.cacheA)
+			})
 		})
 	register("C14",
 		"Decides that Match is exactly (no hosts or host listed) and (no prefixes or some prefix of the URI) and depends on nothing else; that the four specificity classes get strictly increasing, non-zero priorities in the order prefix+host < prefix < host < none; that the list is sorted ascending by that priority (comparator over the very slice being sorted) before it is published under the write lock; that only an element of the sorted list whose name is one of the server's own names and which matches is returned, with the sorted list as the outer loop; that the proxy resolves with the request's Host and request URI and fails with a 5xx before any upstream contact when no location or upstream is found.",
@@ -233,12 +259,13 @@ func init() {
 				rulePriority(c)
 				ruleSortedPublish(c)
 				ruleNamedOnly(c)
+				ruleForwarders(c, "location")
 				ruleErrorCodes(c)
 				ruleProxyMiddleware(c, a, set("proxy-resolution", "forward-once"))
 			})
 		})
 	register("C15",
-		"Decides which request state the proxy middleware changes before the upstream call and that each change is undone on every exit after it: on a cold (fetching) request If-None-Match, If-Modified-Since, Range and If-Range are removed or known absent at the upstream call, on every other request they are untouched; every header the middleware removed or overrode (incl. Accept-Encoding) is set back to the value read before; the upstream's Accept-Encoding override is exactly the configured value; the location's response headers are added to the upstream's header before the response (and its header clone) is built; a lifetime is recorded only for fetchers; the original next handler is restored and run once. What the upstream receives byte for byte is not decided.",
+		"Decides which request state the proxy middleware changes before the upstream call and that each change is undone on every exit after it: on a cold (fetching) request If-None-Match, If-Modified-Since, Range and If-Range are removed or known absent at the upstream call, on every other request they are untouched; every header the middleware removed or overrode (incl. Accept-Encoding) is set back to the value read before; the upstream's Accept-Encoding override is exactly the configured value; the location's configured request headers and query parameters are added next to the client's own (never set over, assigned or deleted); every wildcard of a rewrite rule becomes a capture group; the location's response headers are added to the upstream's header before the response (and its header clone) is built; a lifetime is recorded only for fetchers; the original next handler is restored and run once. What the upstream receives byte for byte is not decided.",
 		nil, func(c *Ctx) {
 			withAnchors(c, func(a *serverAnchors) {
 				ruleProxyMiddleware(c, a, set("withheld-on-fetch", "restore", "accept-encoding-override", "location-edits-order", "lifetime-plumbing", "next-restored", "response-built", "forward-once", "upstream-error-propagates"))
@@ -247,11 +274,13 @@ func init() {
 				ruleProxyHandlerDirect(c)
 				ruleFill(c)
 				ruleLocationEdits(c)
+				ruleQueryEdits(c)
+				ruleRewriteWildcards(c)
 				ruleChainOrder(c, a)
 			})
 		})
 	register("C16",
-		"Decides that the two ways a configuration reaches a running object agree: NewServer and Update compute the same value from the option for every field both assign (only the documented restart-only fields are construction-only); main.update applies every section of the configuration just read and then starts the servers; every registry's reset removes names that disappeared (or replaces the collection wholesale); surviving caches are kept; every configured upstream and compress profile is replaced by one freshly built from the new options; only instances no longer in service are destroyed; removed servers are closed. Differential behaviour of two live processes and in-flight requests during the swap are not decided.",
+		"Decides that the two ways a configuration reaches a running object agree: NewServer and Update compute the same value from the option for every field both assign (only the documented restart-only fields are construction-only); main.update applies every section of the configuration just read and then starts the servers; every registry's reset removes names that disappeared (or replaces the collection wholesale); surviving caches are kept; persistent stores are closed only by package store (they are registry singletons that are never re-opened); every configured upstream and compress profile is replaced by one freshly built from the new options; only instances no longer in service are destroyed; removed servers are closed; the proxy resolves the server's locations, and the cache middleware the server's cache, per request (nothing captured when the handler was built); a server is marked as listening only after net.Listen succeeded, so a failed start is retried by the next update; starting the server list visits and starts every registered server; closing a listening server clears that flag and closes its HTTP server and listener; the package-level entry points main.update calls hand the configuration, converted by the package's converter, to the one default registry. Differential behaviour of two live processes and in-flight requests during the swap are not decided.",
 		nil, func(c *Ctx) {
 			ruleCtorUpdateAgree(c)
 			ruleConverters(c)
@@ -263,22 +292,42 @@ func init() {
 			ruleServersReset(c)
 			ruleUpstreamCtor(c)
 			ruleWatchEveryWrite(c)
+			withAnchors(c, func(a *serverAnchors) {
+				ruleProxyMiddleware(c, a, set("proxy-resolution"))
+				ruleCacheMiddleware(c, a, set("cache-binding"))
+			})
+			ruleListenFlag(c)
+			ruleServerClose(c)
+			ruleStoreCloseOwner(c)
+			ruleServersStartAll(c)
+			ruleForwarders(c, "cache", "location", "server", "compress")
 		})
 	register("C19",
-		"Decides pike's wiring of the health-checked pool (the pool itself lives in the dependency github.com/vicanso/upstream): servers marked backup are registered as backups and only those, each with its own address; policy and ping path come from the configuration; a health check runs before a pool is published and periodically after; a reload never stops the health check of an instance that stays in service; the proxy target is only what the pool's Next() returned and 'no healthy server' is a 5xx error. The fault-sequence quantifier (up/down timing, recovery, even distribution) is run-time behaviour of the dependency and the network: not applicable.",
+		"Decides pike's wiring of the health-checked pool (the pool itself lives in the dependency github.com/vicanso/upstream): servers marked backup are registered as backups and only those, each with its own address; policy and ping path reach the pool exactly as configured (the converter copies them unedited); a health check runs before a pool is published and periodically after; a reload never stops the health check of an instance that stays in service; pike never writes into or appends onto the server list the pool hands out; the proxy target is only what the pool's Next() returned and 'no healthy server' is a 5xx error. The fault-sequence quantifier (up/down timing, recovery, even distribution) is run-time behaviour of the dependency and the network: not applicable.",
 		[]string{"github.com/vicanso/upstream: Next() returns only servers whose last health check passed, backups only when no primary is healthy"}, func(c *Ctx) {
 			withAnchors(c, func(a *serverAnchors) {
 				ruleUpstreamCtor(c)
 				rulePoolFields(c)
+				ruleUpstreamContract(c)
+				ruleConverters(c)
+				ruleForwarders(c, "upstream")
+				ruleLibrarySlices(c)
 				ruleTargetPicker(c)
 				ruleUpstreamSwap(c)
 				ruleProxyMiddleware(c, a, set("proxy-resolution", "forward-once"))
 			})
 		})
 	register("C17",
-		"Decides that Validate runs field validation first and checks each of the four reference relations on exactly the (referrer field, referenced name) pair, per referrer, returning its error; that Write stores the YAML of the configuration only after Validate returned nil and never reports success without writing; that no configuration field is lost or merged by the YAML/JSON field table; that every validate tag is registered and every place that leniently parses a configuration field uses the parser its validator uses. Quoting behaviour of the YAML library is not decided.",
+		"Decides that Validate runs field validation first and checks each of the four reference relations on exactly the (referrer field, referenced name) pair, per referrer, returning its error; that a reference whose run-time lookup can come back nil (the server's cache, the location's upstream) cannot be left empty in an accepted configuration; that the run-time lookups go to the same default registries the reload fills and are made per request with the server's current settings; that each configuration back end reads, writes and watches one and the same location, writes the bytes it is given, and that Read decodes the bytes it read into the configuration it returns; that Write stores the YAML of the configuration only after Validate returned nil and never reports success without writing; that no configuration field is lost or merged by the YAML/JSON field table; that every validate tag is registered and every place that leniently parses a configuration field uses the parser its validator uses. Quoting behaviour of the YAML library is not decided.",
 		nil, func(c *Ctx) {
 			ruleValidateRefs(c)
+			ruleRequiredRefs(c)
+			ruleConfigClients(c)
+			withAnchors(c, func(a *serverAnchors) {
+				ruleProxyMiddleware(c, a, set("proxy-resolution"))
+				ruleCacheMiddleware(c, a, set("cache-binding"))
+			})
+			ruleForwarders(c, "cache", "upstream", "compress", "location")
 			ruleWriteValidates(c)
 			ruleYAMLTable(c)
 			ruleValidatorsAgree(c)
@@ -287,7 +336,7 @@ func init() {
 			ruleStoreOpenNonFatal(c)
 		})
 	register("C20",
-		"Decides lock discipline for all shared mutable state reachable from main (request, purge, admin and reload paths): every access to a guarded field (entry state, shard LRU, server settings, location list) holds the owner's lock in a sufficient mode, locally or through every caller; every lock is released on every return; the lock-order graph is acyclic; fields read without a lock are written only while their object is private to its constructor; a published response is never written; memory from a sync.Pool never escapes into keys, bodies or records; the entry lookup is made under the write lock and a woken waiter re-reads under the lock. Race-detector stress and 'the process does not crash' over schedules are not applicable to static analysis.",
+		"Decides lock discipline for all shared mutable state reachable from main (request, purge, admin and reload paths): every access to a guarded field (entry state, shard LRU, server settings, location list) holds the owner's lock in a sufficient mode, locally or through every caller; every lock is released on every return; the lock-order graph is acyclic; fields read without a lock are written only while their object is private to its constructor; a published response is never written; memory from a sync.Pool never escapes into keys, bodies or records; error values (which reach requests through shared package-level sentinels) are written only by the function that built them; no value holding a lock is copied; slices owned by the upstream pool are never written; configuration reloads are invoked synchronously from the single watcher goroutine; the entry lookup is made under the write lock and a woken waiter re-reads under the lock. Race-detector stress and 'the process does not crash' over schedules are not applicable to static analysis.",
 		nil, func(c *Ctx) {
 			withAnchors(c, func(a *serverAnchors) {
 				ruleLockset(c)
@@ -296,6 +345,10 @@ func init() {
 				rulePublishedResponse(c, a)
 				rulePooledBytes(c)
 				ruleRegistriesTyped(c)
+				ruleErrorsImmutable(c)
+				ruleLocksNotCopied(c)
+				ruleLibrarySlices(c)
+				ruleWatchEveryWrite(c)
 				ruleLockedWrapper(c, a.cacheA)
 				ruleGetOrCreate(c)
 				ruleCompletionPaths(c, a.cacheA, set("locked", "completes-on-every-path"))
